@@ -194,6 +194,9 @@ theorem handle_snd (sgn : ℚ) (ps : List (Probe ℚ)) : (handle sgn ps).2 = (ha
 
 theorem allocSteps_pos (a b : ℚ) (n : Nat) (h : allocSteps a b = some n) : 1 ≤ n := by
   unfold allocSteps at h
+  have e : HasTrunc.isInf a = false := rfl
+  rw [e] at h
+  simp only [Bool.false_eq_true, if_false] at h
   cases ht : HasTrunc.truncInt (a / b) with
   | none => simp [ht] at h
   | some k =>
